@@ -41,6 +41,13 @@ struct FVis {
 		constexpr int D = rank_of<V>; if(m.has_zero()) return;
 		if constexpr(is_mutable_view<V> && !std::is_const_v<std::remove_reference_t<V>>) { op("reinterpret_array_cast(n)"); auto&& rv = v.template reinterpret_array_cast<short>(2); for(auto s2 : tuple_to_vec(rv.sizes())) mix(std::uint64_t(s2)); for(auto const& e : rv.elements()) mix(std::uint64_t(std::uint16_t(e)));
 			op("reinterpret_array_cast()"); auto&& ru = v.template reinterpret_array_cast<short>(); for(auto s2 : tuple_to_vec(ru.sizes())) mix(std::uint64_t(s2)); for(auto const& e : ru.elements()) mix(std::uint64_t(std::uint16_t(e))); }  // goes through the pointer type's own reinterpret_pointer_cast (ADL)
+		if constexpr(D >= 2) {  // const_array_cast: adds or removes const on the element type, same pointer family, same elements (no dereference needed to form the view; bounds kept)
+			op("const_array_cast<T const>"); { auto&& cc = v.template const_array_cast<int const>(); for(auto s2 : tuple_to_vec(cc.sizes())) mix(std::uint64_t(s2)); for(auto const& e : cc.elements()) mix(std::uint64_t(e));
+				std::vector<L> ix; for(L k = 0; k < m.n(); ++k) { m.unlin(k, ix); int const* p = std::addressof(brk(cc, ix)); if(p - base != m.off[std::size_t(k)]) { violation("C11:const_array_cast<T const>:element-identity", "const_array_cast<int const>() designates another element at " + join(ix)); break; } } }
+			op("const_array_cast<T>"); { auto&& mm = std::as_const(v).template const_array_cast<int>(); for(auto s2 : tuple_to_vec(mm.sizes())) mix(std::uint64_t(s2)); for(auto const& e : mm.elements()) mix(std::uint64_t(e));
+				std::vector<L> ix; for(L k = 0; k < m.n(); ++k) { m.unlin(k, ix); int const* p = std::addressof(brk(mm, ix)); if(p - base != m.off[std::size_t(k)]) { violation("C11:const_array_cast<T>:element-identity", "const_array_cast<int>() designates another element at " + join(ix)); break; } } }
+			{ op("const_array_cast(empty)"); multi::array<int, D, Alloc<int>> const E0; auto&& ce = E0.template const_array_cast<int const>(); mix(std::uint64_t(ce.num_elements())); }
+			count("op:const_array_cast"); }
 		op("owning<int>");
 		multi::array<int, D, Alloc<int>> C(v); for(int e : C.elements()) mix(std::uint64_t(e)); mix(std::uint64_t(C == v)); mix(std::uint64_t(C != v));
 		{ multi::array<int, D, Alloc<int>> C2(C); C2.elements()[0] += 1; mix(std::uint64_t(C < C2)); mix(std::uint64_t(C2 <= C)); mix(std::uint64_t(C2() == C())); }
